@@ -183,7 +183,7 @@ where
 
     // Verify the header checksum if requested
     if let Some(ref expected_checksum) = opts.header_checksum {
-        if *expected_checksum != *archive.header_checksum() {
+        if expected_checksum.slice() != archive.header_checksum().slice() {
             return Err(anyhow!("Header checksum mismatch"));
         } else {
             info!("Header checksum verified OK");
